@@ -31,7 +31,7 @@ Lemma regexp_bridge : Gen.Restrict.gen_numbered_regexp = numbered_regexp.
 Proof. reflexivity. Qed.
 
 Lemma loops_bridge :
-  Gen.Restrict.gen_formula_loop = loop_events /\ Gen.Restrict.gen_sum_loop = loop_events
+  Gen.Restrict.gen_formula_loop = loop_events /\ Gen.Restrict.gen_sum_loop = sum_loop_events
   /\ Gen.Restrict.gen_integral_loop = loop_events.
 Proof. repeat split; reflexivity. Qed.
 
